@@ -740,20 +740,17 @@ fn main() {
         child.stdin.take().unwrap().write_all(format!("{}\n", line).as_bytes()).unwrap();
         // watchdog: a scenario that spins (e.g. the worker busy-looping) is reported as HANG
         let pid = child.id();
-        let done = Arc::new(std::sync::atomic::AtomicBool::new(false));
-        let done2 = done.clone();
+        let (tx, rx) = std::sync::mpsc::channel::<()>();
         let wd = std::thread::spawn(move || {
-            for _ in 0..200 {
-                std::thread::sleep(std::time::Duration::from_millis(100));
-                if done2.load(std::sync::atomic::Ordering::SeqCst) {
-                    return false;
-                }
+            if rx.recv_timeout(std::time::Duration::from_secs(20)).is_err() {
+                let _ = std::process::Command::new("kill").arg("-9").arg(pid.to_string()).status();
+                true
+            } else {
+                false
             }
-            let _ = std::process::Command::new("kill").arg("-9").arg(pid.to_string()).status();
-            true
         });
         let o = child.wait_with_output().unwrap();
-        done.store(true, std::sync::atomic::Ordering::SeqCst);
+        let _ = tx.send(());
         let killed = wd.join().unwrap_or(false);
         let s = String::from_utf8_lossy(&o.stdout);
         let last = if killed { "HANG".to_string() } else { s.lines().last().unwrap_or("ABORT").to_string() };
